@@ -234,6 +234,11 @@ def conclude(prop, tier, seed, mon, results, findings, infra, t0, out, write_evi
             have = n
         if have < minimum:
             unmet.append(f"{key}={have}<{minimum}")
+    # a family (catalogue kind) in which no case decided anything was not covered
+    if write_evidence:
+        for fam_name, fm in families.items():
+            if fm["cases"] >= 3 and fm["nontrivial"] == 0 and fam_name != "infra":
+                unmet.append(f"family {fam_name}: 0/{fm['cases']} cases decided anything")
     inconc = verdicts.get("inconclusive", 0)
     if n == 0:
         unmet.append("no cases ran")
